@@ -109,7 +109,7 @@ struct TrC {
   TrC& operator=(const TrC& o) { if (vf_fault(VF_K_CASSIGN)) throw vf_exc{1}; VF_CASSIGN(TrC); return *this; }
 };
 // trivially copyable twin of Tr (same size, same value field)
-struct Tv { int val; int pad0; int pad1;
+struct Tv { int val; int pad0; int pad1; int pad2;   // 16 bytes like the instrumented types (power-of-two element size: measured 2x fewer solver variables)
   friend bool operator==(const Tv& a, const Tv& b) noexcept { return a.val == b.val; }
   friend bool operator!=(const Tv& a, const Tv& b) noexcept { return a.val != b.val; }
   friend bool operator<(const Tv& a, const Tv& b) noexcept { return a.val < b.val; } };
@@ -149,7 +149,7 @@ template <typename T, bool I = vf_elem<T>::instrumented> struct vf_mk;
 template <typename T> struct vf_mk<T, true>  { static T of(uint32_t v) { return T((int)v); } };
 template <> struct vf_mk<int, false> { static int of(uint32_t v) { return (int)v; } };
 template <> struct vf_mk<unsigned char, false> { static unsigned char of(uint32_t v) { return (unsigned char)v; } };
-template <> struct vf_mk<Tv, false> { static Tv of(uint32_t v) { Tv t; t.val = (int)v; t.pad0 = 0; t.pad1 = 0; return t; } };
+template <> struct vf_mk<Tv, false> { static Tv of(uint32_t v) { Tv t; t.val = (int)v; t.pad0 = 0; t.pad1 = 0; t.pad2 = 0; return t; } };
 // what a stored element reads back as, for a value v given by the user
 template <typename T> inline uint32_t vf_norm(uint32_t v) { return v; }
 template <> inline uint32_t vf_norm<unsigned char>(uint32_t v) { return v & 0xffu; }
